@@ -4,15 +4,12 @@
 
 """Logic to convert a .reuse/dep5 file to a REUSE.toml file."""
 
-import re
 from typing import Any, Iterable, Optional, TypeVar, Union, cast
 
 import tomlkit
 from debian.copyright import Copyright, FilesParagraph, Header
 
 from .global_licensing import REUSE_TOML_VERSION
-
-_SINGLE_ASTERISK_PATTERN = re.compile(r"(?<!\*)\*(?!\*)")
 
 _T = TypeVar("_T")
 
@@ -58,7 +55,24 @@ def _convert_asterisk(path: str) -> str:
     """This solves a semantics difference. A singular asterisk is semantically
     identical to a double asterisk in REUSE.toml.
     """
-    return _SINGLE_ASTERISK_PATTERN.sub("**", path)
+    result = []
+    index = 0
+    while index < len(path):
+        if path[index] == "\\":
+            # An escaped character (including an escaped asterisk) is kept
+            # as-is.
+            result.append(path[index : index + 2])
+            index += 2
+        elif path[index] == "*":
+            start = index
+            while index < len(path) and path[index] == "*":
+                index += 1
+            run = path[start:index]
+            result.append("**" if len(run) == 1 else run)
+        else:
+            result.append(path[index])
+            index += 1
+    return "".join(result)
 
 
 def _paths_from_paragraph(paragraph: FilesParagraph) -> Union[str, list[str]]:
